@@ -3,7 +3,7 @@ import OdakProofs.Lemmas.PropagateLemmas
 import OdakModel.Propagator
 import OdakProofs.Lemmas.GenPropagator
 import OdakProofs.Lemmas.GenPropagatorObject5
-import OdakProofs.Lemmas.PropagatorObjectInst3
+import OdakProofs.Lemmas.PropagatorObjectInst5
 
 /-! # C06 – the propagator forward model is history-independent and matches its documented model -/
 namespace Odak
@@ -415,6 +415,52 @@ theorem C06_gen_object_documented_model_every_call_list (a : PropArgs (Ten ℝ) 
   rw [r4, gen_customT_eq, C06_call_is_documented_model,
     toGrid_pRefAp o (by rw [e1]; exact hres) (by rw [e11]; exact hrf) pre ap (fun x hx => (hpre x hx).2)]
 
+/-- **the same for every reconstruction**: after ANY list `pre` of calls, `reconstruct(phases, amplitude, no_grad, get_complex)` returns a buffer
+    `V` whose slot `[frame f, plane d, channel c]` is - for every `f`, `d`, `c` in range -
+
+        crop_center( ifft2( ifftshift( (H(λ_c, z_d) · A) · fftshift( fft2( zero_pad( hologram f c ) ) ) ) ) )        (`get_complex`)
+
+    or its squared modulus, with `hologram f c = generate_complex_field(power[f][c] · amplitude[c], phases[f])` (`holoGrid`; `power` = the laser
+    powers IN FORCE: the tensor the last `set_laser_powers` of `pre` passed, else the constructor's - `cos`-mapped for 'multi-color'), the
+    amplitude given or all ones, and `A` the aperture in force.  Side conditions are the shapes the source needs in order not to raise: the
+    powers tensor is 2-d, amplitude planes and phase frames are `[h, w]`, at most three channels (`phase_scale` has three entries) -/
+theorem C06_gen_object_reconstruct_documented_model_every_call_list (a : PropArgs (Ten ℝ) ℝ) (hp0 : Heap (Ten ℝ)) (o : PropObj (Ten ℝ) ℝ)
+    (h' : Heap (Ten ℝ)) (hi : pInit propOpsGrid a hp0 = some (o, h')) (hp : ∀ p, a.laser_channel_power = some p → p < hp0.size)
+    {h w : Nat} (hres : a.resolution = [(h : Int), (w : Int)]) (hw5 : 5 ≤ w) (hrf : a.rf = 1)
+    (hty : a.propagator_type = "forward" ∨ a.propagator_type = "back and forth")
+    (hme : a.method = "conventional" ∨ a.method = "multi-color")
+    (kern : ℝ → ℝ → CGrid ℝ (2 * h) (2 * w))
+    (hk : ∀ lam z, propagationKernelT a.propagation_type (2 * h) (2 * w) a.pixel_pitch lam z (a.aperture_samples.getD 0 0).toNat
+      (a.aperture_samples.getD 1 0).toNat (a.aperture_samples.getD 2 0).toNat (a.aperture_samples.getD 3 0).toNat = some (kern lam z)) :
+    ∃ dists ap, h'.get o.distances = some dists ∧ h'.get o.aperture = some ap ∧
+      ∀ (pre : List (PCall (Ten ℝ))) (ph : Ten ℝ) (amp : Option (Ten ℝ)) (ng gc : Bool), (∀ x ∈ pre, x.good o h' ∧ x.apShape h w) →
+        ∃ s1 ys s2 y V cpv lp, runSteps (pStep propOpsGrid) (o.toSelf, h') pre = some (s1, ys) ∧
+          pStep propOpsGrid s1 (.reconstruct ph amp ng gc) = some (s2, y) ∧ y.vals = [V] ∧
+          h'.get (pRefPw o.channel_power pre) = some cpv ∧ pPowers propOpsGrid o cpv = some lp ∧
+          ∀ f d c : Nat, f < o.number_of_frames.toNat → d < o.number_of_depth_layers.toNat → c < a.wavelengths.length → c < 3 →
+            cpv.sh [(f : Int), (c : Int)] = [] →
+            (Ten.prepareReconstruct amp (reconPhases ph) o.number_of_channels o.resolution o.resolution_factor).1.sh [(c : Int)] = [h, w] →
+            (Ten.prepareReconstruct amp (reconPhases ph) o.number_of_channels o.resolution o.resolution_factor).2.sh [(f : Int)] = [h, w] →
+            V.getIdx [(f : Int), (d : Int), (c : Int)] = slotValue gc (Ten.ofGrid (cropGrid (customDocumented
+              (padGrid (holoGrid h w lp (Ten.prepareReconstruct amp (reconPhases ph) o.number_of_channels o.resolution o.resolution_factor).1
+                (Ten.prepareReconstruct amp (reconPhases ph) o.number_of_channels o.resolution o.resolution_factor).2 f c))
+              (objKernelGrid o kern dists c d) (pre.foldl apGridStep (Ten.toGrid (2 * h) (2 * w) ap))))) := by
+  obtain ⟨e1, -, e3, e4, -, -, e7, -, -, -, e11, -⟩ := pInit_fields propOpsGrid a hp0 o h' hi
+  have hk' : ∀ lam z, propagationKernelT o.propagation_type (2 * h) (2 * w) o.pixel_pitch lam z (o.samp 0) (o.samp 1) (o.samp 2) (o.samp 3) = some (kern lam z) := by
+    intro lam z
+    simp only [PropObj.samp, e3, e4, e7]
+    exact hk lam z
+  obtain ⟨dists, ap, hd, ha, hall⟩ := propagator_grid_reconstruct_after a hp0 o h' hi hp hres hty hme kern hk'
+  refine ⟨dists, ap, hd, ha, fun pre ph amp ng gc hpre => ?_⟩
+  obtain ⟨s1, ys, s2, y, V, cpv, lp, r1, r2, r3, -, r5, r6, r7⟩ := hall pre ph amp ng gc (fun x hx => (hpre x hx).1)
+  refine ⟨s1, ys, s2, y, V, cpv, lp, r1, r2, r3, r5, r6, fun f d c hf hdl hc hc3 h1 h2 h3 => ?_⟩
+  rw [r7 f d c hf hdl hc hc3 h1 h2 h3, gen_customT_eq, C06_call_is_documented_model,
+    toGrid_pRefAp o (by rw [e1]; exact hres) (by rw [e11]; exact hrf) pre ap (fun x hx => (hpre x hx).2)]
+
+/-- without `get_complex` the slot holds the intensity `|field|²`, element by element -/
+theorem C06_gen_object_reconstruct_intensity (R : Ten ℝ) (r : List Int) : (slotValue false R).el r = ⟨Cx.normSq (R.el r), 0⟩ :=
+  slotValue_intensity_el R r
+
 /-- what `dists` and `ap` of the previous theorem are: the distances are the CALLER'S tensor when one is passed to the constructor and
     `linspace(-volume_depth / 2, volume_depth / 2, n) + image_location_offset` otherwise; the aperture grid is the caller's `[h, w]` aperture
     zero-padded, or the circular mask of the padded size whose radius is `aperture_size` or the longer side -/
@@ -473,5 +519,21 @@ theorem C06_gen_object_kernels_of_the_dispatch (n m : Nat) (dx lam z : ℝ) (s0 
     propagationKernelT "Transfer Function Fresnel" n m dx lam z s0 s1 s2 s3 = some (tfKernel n m dx lam (wavenumber lam) z) := by
   simp only [gen_propagationKernelT_eq, torchKernel]
   refine ⟨by simp, by simp, by simp⟩
+
+/-- non-vacuity: a 'back and forth' angular-spectrum propagator of resolution `[1, 5]` with one wavelength, two default planes and the
+    default aperture IS built by `pInit` with the grid-model operations, with `resolution_factor = 1`; its kernels are the ones
+    `C06_gen_object_kernels_of_the_dispatch` lists, so every hypothesis of the call-list theorems above is satisfiable -/
+noncomputable def exPropArgs : PropArgs (Ten ℝ) ℝ :=
+  { resolution := [1, 5], wavelengths := [1], pixel_pitch := 1, resolution_factor := 1, number_of_frames := 1, number_of_depth_layers := 2,
+    volume_depth := 1, image_location_offset := 0, propagation_type := "Angular Spectrum", propagator_type := "back and forth",
+    back_and_forth_distance := 1, laser_channel_power := none, aperture := none, aperture_size := none, distances := none,
+    aperture_samples := [2, 2, 2, 2], method := "conventional" }
+
+example : (pInit (propOpsGrid : PropOps (Ten ℝ) ℝ) exPropArgs Heap.empty).isSome = true ∧ exPropArgs.rf = 1 ∧
+    exPropArgs.resolution = [((1 : Nat) : Int), ((5 : Nat) : Int)] ∧
+    (∀ lam z, propagationKernelT exPropArgs.propagation_type (2 * 1) (2 * 5) exPropArgs.pixel_pitch lam z 2 2 2 2 = some (asKernel (2 * 1) (2 * 5) 1 lam z)) := by
+  refine ⟨?_, ?_, rfl, fun lam z => (C06_gen_object_kernels_of_the_dispatch _ _ _ lam z 2 2 2 2).1⟩
+  · simp [pInit, exPropArgs, pInitDistances, pInitPowers, Heap.getOpt, pApertureValue, PropArgs.rf]
+  · simp [PropArgs.rf, exPropArgs]
 
 end Odak
